@@ -1,12 +1,16 @@
 #!/bin/sh
-# tools/r4_eval.sh <ID>   (ID like C01)  — confirm both round-3 changes of one property in the author's worktree, then run the
-# property's quick check against each in the isolated scratch copy (never touches /repo). Serialised by a lock.
+# tools/r4_eval.sh <ID>   (ID like C01)  — confirm both round-4 changes of one property in the author's worktree (demo without / with,
+# unedited suite with; runs in parallel with other properties), then - under a lock - run the property's quick check against each in the
+# isolated scratch copy (never touches /repo).
 ID=$1; A=r4$ID; OUT=/tmp/wt/out/$A
-exec 9>/tmp/wt/eval.lock; flock 9
 for M in m1 m2; do
   [ -f $OUT/$M/patch.diff ] || { echo "$A $M: no patch" >> $OUT/eval.log; continue; }
   echo "=== $A $M verify" >> $OUT/eval.log
   WT_BASE=/tmp/wt OUT_BASE=/tmp/wt/out /verif/tools/verify_seed.sh $A $M >> $OUT/eval.log 2>&1
+done
+exec 9>/tmp/wt/eval.lock; flock 9
+for M in m1 m2; do
+  [ -f $OUT/$M/patch.diff ] || continue
   echo "=== $A $M check $ID quick" >> $OUT/eval.log
   /verif/tools/try_patch_isolated.sh $OUT/$M/patch.diff $ID quick 14 >> $OUT/eval.log 2>&1
   cp /tmp/wt/try_patch.out $OUT/$M/check_quick.out
